@@ -1152,7 +1152,9 @@ impl Printer {
                 (a, se.1)
             }
             StmtKind::Assign(n, accs, op, e) => {
-                let a = self.tok(n);
+                // the target is parsed as an ordinary expression; its location follows the
+                // expression rules (a field access is located at the field identifier only)
+                let mut a = self.tok(n);
                 for acc in accs {
                     match acc {
                         Acc::Index(i) => {
@@ -1166,7 +1168,7 @@ impl Printer {
                         }
                         Acc::Field(f) => {
                             self.tok(".");
-                            self.tok(f);
+                            a = self.tok(f);
                         }
                     }
                 }
